@@ -15,6 +15,23 @@ from ..core.report import Run
 LEVEL = "other"
 
 
+def lower_bound(e: ast.AST):
+    """A constant the expression is never below (None: unknown)."""
+    from ..core.model import fold
+
+    try:
+        return fold(e)
+    except ValueError:
+        pass
+    if isinstance(e, ast.Call) and dotted(e.func) in ("max", "min") and e.args and not e.keywords:
+        bs = [lower_bound(a) for a in e.args]
+        if dotted(e.func) == "max":
+            known = [b for b in bs if b is not None]
+            return max(known) if known else None
+        return min(bs) if all(b is not None for b in bs) else None
+    return None
+
+
 def check(repo: Repo, run: Run) -> None:
     run.explanation = (
         "E1: interprocedural may-raise analysis of Evaluator.evaluate (call graph through the visitor dispatch typed by "
@@ -97,6 +114,29 @@ def check(repo: Repo, run: Run) -> None:
                            f"the shape assertion raising {cls_} in Evaluator.{mname} is unreachable for every child count / symbol / token type the grammar allows",
                            ev.loc(n))
     run.floor("C04.E3", n3, 10)
+    # E6 -----------------------------------------------------------------
+    # the recursion limit for CEL's minimum nesting: Environment.__init__ raises it on every path, to a constant.
+    # (Whether the constant is large enough - frames per CEL nesting level - is a run-time quantity, not decided.)
+    from ..core.model import fold
+
+    top = repo.mod("celpy")
+    init = top.func("Environment.__init__")
+    calls = [st for st in init.body if isinstance(st, ast.Expr) and isinstance(st.value, ast.Call) and dotted(st.value.func) == "sys.setrecursionlimit"]
+    nested = [c for c in ast.walk(init) if isinstance(c, ast.Call) and dotted(c.func) == "sys.setrecursionlimit"]
+    if not nested:
+        run.ob("C04.E6", "Environment.__init__|recursion limit", False,
+               "Environment() no longer raises the interpreter's recursion limit: expressions within CEL's minimum nesting exhaust the default stack (RecursionError escapes evaluate())", top.loc(init))
+    else:
+        c = nested[0]
+        value = lower_bound(c.args[0]) if c.args else None
+        uncond = any(st.value is c for st in calls)
+        ok = uncond and isinstance(value, int) and value > 1000
+        run.ob("C04.E6", "Environment.__init__|recursion limit", ok,
+               f"Environment() calls sys.setrecursionlimit({ast.unparse(c.args[0]) if c.args else ''}) "
+               + ("unconditionally with a constant above CPython's default" if ok else
+                  ("on some paths only" if not uncond else "with a value that depends on run-time state or does not exceed CPython's default of 1000")
+                  + ": the limit can stay at the default, where expressions within CEL's minimum nesting raise RecursionError out of evaluate()"),
+               top.loc(c))
     # E5 -----------------------------------------------------------------
     dumpstack.check_dump(repo, run, grammar(repo), rule_prefix="C04.E5")
     # D2 obligations recorded under C04.E5.D2 are rendering facts, not totality: drop them
